@@ -90,23 +90,31 @@ def marginal_of(post, v):
     return [{"a": {v: s}, "w": w} for s, w in out.items()]
 
 
+def _vw(rng, c):
+    w = [rng.randint(1, 9) for _ in range(c)]
+    if rng.random() < 0.3 and c > 1:
+        w[rng.randrange(c)] = 0
+    if sum(w) == 0:
+        w[0] = 3
+    return {"den": 10, "w": w}
+
+
 def add_virts(instances, rng, per=2):
+    """virtual-evidence palettes: the same variable with two different likelihoods (so that a stale cache or
+    engine state shows), plus a two-variable list"""
     for i in instances:
         i["virtname"] = {v: "w" + v[1:] for v in i["nodes"]}
         vs = [{}]
-        for _ in range(per):
-            k = rng.choice([1, 1, 2])
-            chosen = rng.sample(i["nodes"], min(k, len(i["nodes"])))
-            vt = {}
-            for v in chosen:
-                c = len(i["states"][v])
-                w = [rng.randint(1, 9) for _ in range(c)]
-                if rng.random() < 0.3 and c > 1:
-                    w[rng.randrange(c)] = 0
-                if sum(w) == 0:
-                    w[0] = 3
-                vt[v] = {"den": 10, "w": w}
-            vs.append(vt)
+        v = rng.choice(i["nodes"])
+        c = len(i["states"][v])
+        vs.append({v: _vw(rng, c)})
+        if per >= 2:
+            w2 = _vw(rng, c)
+            if w2 != vs[1][v]:
+                vs.append({v: w2})
+            if len(i["nodes"]) > 1:
+                u = rng.choice([x for x in i["nodes"] if x != v])
+                vs.append({v: _vw(rng, c), u: _vw(rng, len(i["states"][u]))})
         i["virts"] = vs
     return instances
 
